@@ -3,6 +3,9 @@
 import json, os, subprocess
 V = os.path.dirname(os.path.dirname(os.path.abspath(__file__)))
 TEXT = {
+ 'C10': ('reference-model monitor: PositionalIndex model (names resolved from the chemical list and group table only) vs real indexer reads/writes, with cache-eviction floods counted by an IndexCacheProbe and fresh-twin comparisons',
+         'Exploration: seeded chemical sets (1-8 chemicals, aliases, groups), every key form on single- and multi-phase molar and mass indexers, write-then-read with complement check, cross-package mixing interleaved, floods of >=700/3000 distinct tuple keys per indexer (evictions counted; zero evictions = inconclusive), comparison with brand-new indexers.',
+         'Names are taken from the Chemical objects with the documented uniqueness rule; phase-summed writes (documented IndexError) are not judged.'),
  'C18': ('invariant-at-a-hook monitor: PortGraph invariant (ins<->sink, outs<->source mutually inverse, no stream at two ports, fixed sizes, placeholders) walked after every real rewiring operation + per-operation postconditions',
          'Exploration with a bounded exhaustive core: every sequence of enabled concrete operations up to depth 2 (quick) / 3 (thorough) over a 3-unit/5-stream universe, plus seeded random histories of <=50 operations over 3-8 units (construction, slices, pipes, insert/take_place_of/replace_with, reconnect, placeholders).',
          'Operations are used within the preconditions the property lists (checked on the live state before each call).'),
